@@ -39,6 +39,16 @@ def mk_node(xk, testnet=False, form="ctor", public=False, purpose=44):
         return cls.parse(payload, testnet=testnet)
     if form == "stream":
         return cls.parse(BytesIO(payload), testnet=testnet)
+    if form == "stream-offset":
+        st = BytesIO(b"HEADER\x00\x01" + payload + b"\xff" * 5)      # record behind a header, stream positioned on it
+        st.seek(8)
+        return cls.parse(st, testnet=testnet)
+    if form == "stream-second":
+        is_prv = not (public or xk.k is None)
+        first = rb32.XKey(xk.k if is_prv else None, xk.K, xk.c[::-1], 7, 11, b"\x09\x08\x07\x06")
+        st = BytesIO(first.payload(ver, is_prv) + payload)
+        cls.parse(st, testnet=testnet)                                  # first record of the stream
+        return cls.parse(st, testnet=testnet)                           # ... the second one is ours
     raise ValueError(form)
 
 
